@@ -289,7 +289,7 @@ func RulePS1(c *Ctx) {
 		}
 		reads := false
 		ast.Inspect(fd.Body, func(n ast.Node) bool {
-			if sel, ok := n.(*ast.SelectorExpr); ok {
+			if sel, ok := n.(*ast.SelectorExpr); ok && sel.Sel.Name == "Children" {
 				if inner, ok := ast.Unparen(sel.X).(*ast.SelectorExpr); ok && info.ObjectOf(inner.Sel) == content {
 					if s2, ok := ast.Unparen(inner.X).(*ast.SelectorExpr); ok && info.ObjectOf(s2.Sel) == slot {
 						reads = true
@@ -480,6 +480,10 @@ func (c *Ctx) ps2PerPropertyKind(sc *report.RuleScope, pk *pkgT, checker *types.
 			bodies = append(bodies, gd)
 		}
 	}
+	var childrenT types.Type
+	if f := c.Field("catalog", "SchemaContentJSight", "Children"); f != nil {
+		childrenT = f.Type()
+	}
 	loops, kindReads := 0, 0
 	var firstOther ast.Node
 	for _, b := range bodies {
@@ -488,8 +492,14 @@ func (c *Ctx) ps2PerPropertyKind(sc *report.RuleScope, pk *pkgT, checker *types.
 			if !ok {
 				return true
 			}
-			sel, ok := ast.Unparen(rs.X).(*ast.SelectorExpr)
-			if !ok || sel.Sel.Name != "Children" {
+			isChildren := false
+			if sel, ok := ast.Unparen(rs.X).(*ast.SelectorExpr); ok && sel.Sel.Name == "Children" {
+				isChildren = true
+			}
+			if t := info.TypeOf(rs.X); t != nil && childrenT != nil && types.Identical(t, childrenT) {
+				isChildren = true // a helper that walks the children handed to it
+			}
+			if !isChildren {
 				return true
 			}
 			var elem, idx types.Object
@@ -632,6 +642,70 @@ func RuleDN1(c *Ctx) {
 						okStore = false
 					}
 					textIdx = idx
+				}
+				return true
+			})
+		}
+		// the store may sit in a helper (or in the callback it returns) that receives the
+		// address of the text: `c.Tags.Update(n, tagDescriptionSetter(&description))`
+		if sfd != nil && nStores == 0 {
+			sinfo := spk.TypesInfo
+			ast.Inspect(sfd.Body, func(x ast.Node) bool {
+				call, ok := x.(*ast.CallExpr)
+				if !ok {
+					return true
+				}
+				g := Callee(sinfo, call)
+				gd := c.P.Decl(g)
+				if g == nil || gd == nil || gd.Body == nil || c.P.PkgOfDecl(gd) != spk {
+					return true
+				}
+				for ai, a := range call.Args {
+					u, ok := ast.Unparen(a).(*ast.UnaryExpr)
+					if !ok || u.Op != token.AND {
+						continue
+					}
+					id, ok := ast.Unparen(u.X).(*ast.Ident)
+					if !ok {
+						continue
+					}
+					idx := paramIndexOf(sinfo, sfd, sinfo.ObjectOf(id))
+					if idx < 0 || assignedAnywhere(sinfo, sfd.Body, sinfo.ObjectOf(id)) {
+						continue
+					}
+					// the callee's parameter at that position
+					var q types.Object
+					pi := 0
+					for _, fl := range gd.Type.Params.List {
+						for _, nm := range fl.Names {
+							if pi == ai {
+								q = sinfo.ObjectOf(nm)
+							}
+							pi++
+						}
+					}
+					if q == nil || assignedAnywhere(sinfo, gd.Body, q) {
+						continue
+					}
+					ast.Inspect(gd.Body, func(y ast.Node) bool {
+						as, ok := y.(*ast.AssignStmt)
+						if !ok {
+							return true
+						}
+						for i, l := range as.Lhs {
+							sel, ok := ast.Unparen(l).(*ast.SelectorExpr)
+							if !ok || sel.Sel.Name != "Description" || i >= len(as.Rhs) {
+								continue
+							}
+							nStores++
+							if rid, ok := ast.Unparen(as.Rhs[i]).(*ast.Ident); ok && sinfo.ObjectOf(rid) == q && (textIdx < 0 || textIdx == idx) {
+								textIdx = idx
+							} else {
+								okStore = false
+							}
+						}
+						return true
+					})
 				}
 				return true
 			})
@@ -1970,6 +2044,76 @@ func RulePA1(c *Ctx) {
 			return true
 		})
 		if len(distinct) < 3 {
+			// the table form: a literal list of the passes (method values), ranged over and
+			// called in list order
+			inspectNoLit(sfd.Body, func(x ast.Node) bool {
+				cl, ok := x.(*ast.CompositeLit)
+				if !ok {
+					return true
+				}
+				var refs []*types.Func
+				for _, el := range cl.Elts {
+					var g *types.Func
+					switch y := ast.Unparen(el).(type) {
+					case *ast.Ident:
+						g, _ = info.ObjectOf(y).(*types.Func)
+					case *ast.SelectorExpr:
+						g, _ = info.ObjectOf(y.Sel).(*types.Func)
+					}
+					if g == nil || c.P.Decl(g) == nil || inner[g] || g == exp || !reach(g, 0) {
+						return true
+					}
+					refs = append(refs, g)
+				}
+				if len(refs) < 3 {
+					return true
+				}
+				// ranged over, the element called
+				ranged := false
+				inspectNoLit(sfd.Body, func(y ast.Node) bool {
+					rs, ok := y.(*ast.RangeStmt)
+					if !ok || rs.Value == nil {
+						return true
+					}
+					vid, ok := rs.Value.(*ast.Ident)
+					if !ok {
+						return true
+					}
+					src := ast.Unparen(c.CFG(pk, sfd.Body).Resolve(rs.X))
+					if src != ast.Expr(cl) {
+						return true
+					}
+					ast.Inspect(rs.Body, func(z ast.Node) bool {
+						if call, ok := z.(*ast.CallExpr); ok {
+							if fid, ok := ast.Unparen(call.Fun).(*ast.Ident); ok && info.ObjectOf(fid) == info.ObjectOf(vid) {
+								ranged = true
+							}
+						}
+						return true
+					})
+					return true
+				})
+				if !ranged {
+					return true
+				}
+				nStages++
+				key := "order:" + c.P.DeclName(sfd)
+				ut := -1
+				for i, g := range refs {
+					if iteratesUserTypes(c.P.Decl(g)) {
+						ut = i
+					}
+				}
+				switch {
+				case ut < 0:
+					sc.Undecided(key, c.P.Pos(sfd.Pos()), "the pass that expands the user types themselves was not found in the list of passes of this stage")
+				case ut == 0:
+					sc.Holds(key, c.P.Pos(cl.Pos()), fmt.Sprintf("the passes are run in list order (%d) and the pass over the user types is the first", len(refs)))
+				default:
+					sc.Violation(key, c.P.Pos(cl.Pos()), "another kind of declared schema is expanded ("+refs[0].Name()+") before the pass over the user types: a base type is then expanded on first use, with the used-type set of whichever declaration got there first, so that declaration's usedUserTypes depends on the order of declarations")
+				}
+				return true
+			})
 			return
 		}
 		nStages++
